@@ -10,7 +10,7 @@ from harness.common import *
 import vlib
 
 LEVEL_TEXT = ('partial. Lean 4 theorems, for all cubes/patterns/oversampling/frames/gains: collected charge is the bilinear wavelength sum; scalar, '
-              'vector and Spectrum efficiencies agree when they denote the same flat efficiency, the Spectrum branch being DERIVED from a model of '
+              'vector and Spectrum efficiencies agree when they denote the same flat efficiency (any Spectrum equals the vector of its own samples: qe_spectrum_equals_its_samples), the Spectrum branch being DERIVED from a model of '
               'Spectrum.sample (unit factor regenerated from radiometry.py + linear interpolation), and Spectrum.sample is invariant under the '
               'unit of the request; format_bayer_string refuses exactly foreign letters / non-square lengths and lays the pattern out row-major; '
               'the Bayer mosaic (np.tile then np.repeat on both axes) has the image shape when the size is a multiple of d*os (one-row '
@@ -22,7 +22,7 @@ LEVEL_NOTE = ('partial: "input frame untouched" and "requested dtype" are observ
               'frames; dtype compared) and by the regenerated effect table of C10, not proved about NumPy; a non-flat Spectrum QE agrees with a '
               'vector only through the sampled correspondence (the theorem covers flat spectra and unit invariance); float rounding is not '
               'modelled (test data is dyadic so float64 is exact). The Bayer tile/repeat bookkeeping, the adc gain dispatch, power-cube loop, einsum '
-              'subscripts and step order are REGENERATED from detector.py (Gen/DetectorIdx.lean): mosaic_*, adc_matches_source, power_cube_exponent, gain_dispatch_matches_model depend on them. NaN/inf frames are not generated (outside the model).')
+              'subscripts and step order are REGENERATED from detector.py (Gen/DetectorIdx.lean): mosaic_*, adc_follows_source_steps (the model digitisation is RUN through the regenerated step list), adc_matches_source (a pin of the key expressions), power_cube_exponent, gain_dispatch_matches_model depend on them. NaN/inf frames are not generated (outside the model).')
 TECHNIQUE = 'Lean 4 proof (omega/Int.ediv-emod, ordered-field algebra, Int.floor) over a hand model with exact differential correspondence'
 GEN = ['DetectorIdx', 'Effects', 'Extent', 'FieldDispatch', 'FieldIdx', 'FieldMerge', 'Units']     # every Gen module the model, lemmas, theorems and driver ops import (transitively)
 OPS = ['C16']
@@ -44,7 +44,9 @@ UNPROVEN = ['a Spectrum QE that is reused across calls after its value/wave was 
             'output dtype equals the requested dtype: sampled (compared on every adc case); DN must be representable in the dtype',
             'a NON-flat Spectrum QE equals the vector of its samples: by the correspondence only (the model now samples the Spectrum itself with '
             'the regenerated unit table; theorems cover flat spectra and invariance under the unit of the request)']
-ASSUMPTIONS = ['saturation_capacity 0 is treated like None by the code (`if saturation_capacity:`) and by the model',
+ASSUMPTIONS = ['float32 electron frames and integer frames whose powers/products wrap in their dtype are outside the model (real arithmetic) and are not generated '
+               '(integer frames are paired only with powers that fit; NaN/inf frames are not generated)',
+               'saturation_capacity 0 is treated like None by the code (`if saturation_capacity:`) and by the model',
                'integer electron frames: the powers x**order must be representable in the frame dtype (NumPy wraps silently: '
                'adc(int16 [[58]], gain=[0.5, 0, 1.25]) returns 0, not 97628); float overflow/rounding likewise not modelled',
                'floor is discontinuous: when the exact polynomial value is within 1e-13 (relative to its largest term) of an integer a one-DN difference is '
@@ -507,7 +509,8 @@ def oracle(c, io):
             # mosaic and comes back EMPTY instead of being refused (reported); anything else that is accepted is a violation
             if (R == 1 or C == 1) and io.get('broadcast') and io.get('size') == 0: return None
             return 'image size is not a multiple of pattern*oversample but was accepted'
-        if 'exc' in io: return f"collect_charge_bayer raised {io['exc']}: {io.get('msg')}"
+        if 'exc' in io: return f"collect_charge_bayer raised {io['exc']}: {io.get('msg')} (image {R}x{C} is a multiple of pattern {d}x{d} x oversample {os_})"
+        if io.get('broadcast'): return f"collect_charge_bayer returned shape {io['shape']} for a {R}x{C} image (multiple of pattern x oversample)"
         if not io['untouched']: return 'collect_charge_bayer modified the photon cube'
         x = _fr(c['img']); pat = c['pattern'].upper()
         qe = {'R': _qe_ref(c['qe_r'], c['wave_nm'], c['nw']), 'G': _qe_ref(c['qe_g'], c['wave_nm'], c['nw']),
